@@ -567,7 +567,13 @@ pub fn run_c11(seed: u64, runno: u64, solver_bound: u32) -> Acc {
     let mut acc = Acc::new();
     let z = ZobristHasher::create_zobrist_hasher();
     // sources: generated small positions, the endgame seeds and terminal-adjacent walks
-    let root = match if rng.chance(1, 150) { 99 } else if rng.chance(1, 8) { 98 } else { rng.below(27) } {
+    let root = match if rng.chance(1, 150) { 99 } else if rng.chance(1, 8) { 98 } else if rng.chance(1, 60) && !crate::endgames::CASTLING_MATES.is_empty() { 97 } else { rng.below(27) } {
+        97 => {
+            // the only mates in one are castling moves (recorded as a king move; the rook checks)
+            acc.count("c11_mate_by_castling_positions");
+            let p = Pos::from_fen(*rng.pick(crate::endgames::CASTLING_MATES)).unwrap();
+            if rng.chance(1, 2) { workload::mirror(&p) } else { p }
+        }
         98 => {
             // two or three heavy pieces against a bare king, strong side to move: the same
             // positions recur at different plies of one shallow search by many move orders
